@@ -30,6 +30,8 @@ impl SystemInterface for Recorder {
 pub struct Impl {
     pub vm: Vm,
     pub log: Rc<RefCell<Vec<(char, Cell)>>>,
+    /// force a collection (with the default audit) before every top-level form given to `eval`
+    pub collect_before_each_form: bool,
 }
 
 #[derive(Debug, Clone, PartialEq)]
@@ -89,11 +91,16 @@ impl Impl {
         let log = Rc::new(RefCell::new(vec![]));
         let mut vm = Vm::new();
         vm.set_system_interface(Box::new(Recorder { log: log.clone() }));
-        Impl { vm, log }
+        Impl { vm, log, collect_before_each_form: false }
     }
 
     pub fn eval(&mut self, form: &Cell) -> ImplOut {
         let vm = &mut self.vm;
+        if self.collect_before_each_form {
+            if let Err(e) = std::panic::catch_unwind(std::panic::AssertUnwindSafe(|| vm.verif_collect_now())) {
+                return ImplOut::Panic(panic_message(&e));
+            }
+        }
         let r = std::panic::catch_unwind(std::panic::AssertUnwindSafe(|| vm.eval(form)));
         match r {
             Err(e) => ImplOut::Panic(panic_message(&e)),
@@ -105,10 +112,42 @@ impl Impl {
         }
     }
 
+    /// Evaluate through the sliced entry point: prepare_eval, then run_count(budget) until done (at most `max_slices`).
+    pub fn eval_sliced(&mut self, form: &Cell, budget: usize, max_slices: usize) -> ImplOut {
+        let vm = &mut self.vm;
+        let r = std::panic::catch_unwind(std::panic::AssertUnwindSafe(|| {
+            vm.prepare_eval(form)?;
+            for _ in 0..max_slices {
+                if let Some(c) = vm.run_count(budget)? {
+                    return Ok(Some(c));
+                }
+            }
+            Ok(None)
+        }));
+        match r {
+            Err(e) => ImplOut::Panic(panic_message(&e)),
+            Ok(Ok(Some(c))) => ImplOut::Value(c),
+            Ok(Ok(None)) => ImplOut::Panic("sliced evaluation did not finish within the slice limit".into()),
+            Ok(Err(e)) => {
+                let e: marwood::error::Error = e;
+                let text = std::panic::catch_unwind(|| format!("{}", e)).unwrap_or_else(|_| "<error rendering panicked>".into());
+                ImplOut::Error(text, classify_err(&e))
+            }
+        }
+    }
+
     pub fn eval_text(&mut self, text: &str) -> ImplOut {
         match parse::parse_text(text) {
             Ok((c, _)) => self.eval(&c),
-            Err(e) => ImplOut::Error(format!("{}", e), ErrClass::Other),
+            Err(_) => {
+                // unreadable text: let the VM's own text entry point see it (it reports the read error)
+                let vm = &mut self.vm;
+                match std::panic::catch_unwind(std::panic::AssertUnwindSafe(|| vm.eval_text(text).map(|(c, _)| c))) {
+                    Err(e) => ImplOut::Panic(panic_message(&e)),
+                    Ok(Ok(c)) => ImplOut::Value(c),
+                    Ok(Err(e)) => ImplOut::Error(format!("{}", e), ErrClass::Other),
+                }
+            }
         }
     }
 }
